@@ -12,7 +12,8 @@ from ..refmodel.parser import ref_parse, ACCEPT, REJECT, DONTCARE
 PROP = "C14"
 SYMS8 = ["A", "K", "\n", " ", "1", "*", ">", "b"]
 SYMS9 = SYMS8 + ["E"]
-CORRUPT = [chr(c) for c in range(32, 127)] + ["\n", "\t", "\r", "é", "\x00", " "]
+CORRUPT = [chr(c) for c in range(32, 127)] + ["\n", "\t", "\r", "é", "\x00", " ",
+           "\u0663", "\uff15", "\u0967", "\u00b2", "\uff21", "\u2028", "\u3000", "\u212a"]   # non-ASCII digits, superscript 2, fullwidth A, ...
 SEQ23 = "MKEDSTYAGPWLKRHQNCVIFEK"
 SEQ61 = "MDVFMKGLSKAKEGVVAAAEKTKQGVAEAAGKTKEGVLYVGSKTKEGVVHGVATVAEKTKEQ"
 
@@ -70,6 +71,15 @@ def check_text(text, depth, case, real=None):
     if verdict == REJECT:
         if ok:
             v("malformed-file-accepted", "file %r parsed to %r but must be rejected (%s)" % (text, got, why), reason=why)
+        elif depth >= 1:
+            # the constructor route must reject it as well (and must not remember anything of it)
+            calls += 1
+            try:
+                o_bad = SP(sequenceFile=name)
+                v("malformed-file-accepted", "SequenceParameters(sequenceFile) accepted the malformed file %r as %r (%s)"
+                  % (text, o_bad.get_sequence(), why), reason=why)
+            except Exception:  # noqa
+                pass
         return out, verdict, calls
     if not ok:
         v("valid-file-rejected", "file %r raised %r but must parse to %s" % (text, err, exp), expected=exp)
@@ -136,6 +146,9 @@ def layouts(seq):
 
 def check_case(case):
     k = case["kind"]
+    if k == "text" and "long" in case:
+        a = shard(("longfiles", (case["long"],)))
+        return a.violations
     if k == "text":
         v, verdict, calls = check_text(case["text"], case.get("depth", 2), case)
         return v
@@ -199,6 +212,24 @@ def shard(s):
             for pos in range(len(text) + 1):
                 for c in (">", "*", "\n>x\n", "b", "1", " "):
                     consume(text[:pos] + c + text[pos:], 0, {"kind": "text", "depth": 0, "inserted_at": pos})
+    elif kind == "longfiles":
+        import random as _r
+        base = "MKVLAAGIDESTYPWFRNQHC"
+        for n in s[1]:
+            seq = (base * (n // len(base) + 1))[:n]
+            for ll, numbered in ((60, False), (70, False), (60, True), (n, False)):
+                lines = []
+                for i in range(0, n, ll):
+                    chunk = seq[i:i + ll]
+                    if numbered:
+                        chunk = "%9d %s" % (i + 1, " ".join(chunk[j:j + 10] for j in range(0, len(chunk), 10)))
+                    lines.append(chunk)
+                for tail in ("\n", "*\n", "\n>second\nAK\n", "\nAKb\n"):
+                    text = ">long one\n" + "\n".join(lines) + tail
+                    dep = 1 if (ll == 60 and not numbered and tail == "\n") else 0
+                    verdict = consume(text, dep, {"kind": "text", "depth": dep, "long": n, "ll": ll, "numbered": numbered})
+                    if verdict == ACCEPT:
+                        acc.nontrivial += 1
     elif kind == "real":
         d = tempfile.mkdtemp(prefix="vmc_c14_")
         try:
@@ -236,6 +267,8 @@ def run(tier, seed, t0):
     real = ["AKE\n", ">h\nAK E\n12 KA*\n", "AK\n>h\n>h2\nA", "A*K\n", ">only header\n", "ak\n", "MKE\r\nDST\r\n", "A\tK\n",
             SEQ23 + "\n", ">x\n" + SEQ61[:30] + "\n" + SEQ61[30:] + "*\n"]
     shards.append(("real", real))
+    for n_ in ((11000,) if tier == "quick" else (9000, 12000, 20000, 35000)):
+        shards.insert(0, ("longfiles", (n_,)))
     acc = core.pmap(shard, shards)
     return core.finish(
         PROP, tier, seed, acc, t0,
